@@ -324,8 +324,12 @@ func exec(r *hx.Run, line string) string {
 var safeOps = []string{"add", "sub", "mul", "div"}
 var rawOps = []string{"add", "sub", "mul", "div", "and", "or", "xor", "andnot", "rem"}
 
+var mainSlot = newSlot()
+
 func emit(r *hx.Run, line string) {
+	mainSlot.enter(&callDesc{prefix: line})
 	ans := exec(r, line)
+	mainSlot.leave()
 	r.Line(line, ans)
 	f := strings.Fields(line)
 	if f[0] == "corpus" {
@@ -456,7 +460,10 @@ func sweep16[T safemath.Integer](r *hx.Run, name string, lo, hi int64) (evals in
 				}
 			}
 			fits := func(z int64) bool { return z >= lo && z <= hi }
+			sl := newSlot()
 			for x := lo + int64(w); x <= hi; x += int64(workers) {
+				// one announcement per row of 65536 pairs + 256 shift counts (a per-call one would double the cost of the cheap half)
+				sl.enter(&callDesc{prefix: "safe add|sub|mul|div|shl " + name + " (row of the 16-bit sweep, x =", xi: x, ints: true})
 				for y := lo; y <= hi; y++ {
 					// pairs with an unrepresentable result: all y near the boundaries and near zero, every 11th y elsewhere
 					d := y - lo
@@ -493,6 +500,7 @@ func sweep16[T safemath.Integer](r *hx.Run, name string, lo, hi int64) (evals in
 					}
 					check("shl", x, int64(sh), v, err, exact, false)
 				}
+				sl.leave()
 			}
 			total.Add(n)
 		}(w)
@@ -504,6 +512,7 @@ func sweep16[T safemath.Integer](r *hx.Run, name string, lo, hi int64) (evals in
 
 func main() {
 	r := hx.Start()
+	startWatchdog(r)
 	r.MaxSamples = 2
 	r.Rule = "exhaustive: all 65536 operand pairs of uint8 and int8 for SafeAdd/Sub/Mul/Div and the raw operators + - * / &, all shift counts 0..255 x all 256 values; " +
 		"boundary-biased samples for 16/32/64-bit types and the 64-bit helpers; non-trivial = request answered ok/overflow (distinct request lines)"
